@@ -379,10 +379,11 @@ Fixpoint nodup_N_b (l : list N) : bool :=
   end.
 
 Definition minv_b (cap : nat) (s : tst) : bool :=
+  let c := N.of_nat cap in
   cinv_b k (tterms (ts_tt s)) nl (ts_c s)
   && nodup_N_b (map (fun p => tval (snd p)) (ts_tt s))
   && nodup_N_b (map fst (ts_tt s) ++ ts_free s)
-  && forallb (fun x => N.ltb x (N.of_nat cap)) (map fst (ts_tt s) ++ ts_free s)
+  && forallb (fun x => N.ltb x c) (map fst (ts_tt s) ++ ts_free s)
   && Nat.eqb (length (ts_tt s) + length (ts_free s)) cap
   && forallb (fun o => match tfind (ts_tt s) (snd o) with Some _ => true | None => false end) (ts_own s)
   && forallb (fun o => match eref (snd o) with RN _ => true | RT _ => false end) (cown (ts_c s))
@@ -413,7 +414,8 @@ Definition lift_cown (handles : list (nat * edge)) : list (nat * edge) :=
     chain's order is not observable; only its length and its disjointness from the ids
     matter for the replayed observables) *)
 Definition free_of (cap : nat) (tt : ttable) : list N :=
-  filter (fun x => negb (existsb (N.eqb x) (map fst tt))) (map N.of_nat (seq 0 cap)).
+  let ids := map fst tt in
+  filter (fun x => negb (existsb (N.eqb x) ids)) (map N.of_nat (seq 0 cap)).
 
 Definition lift_st (t : ctable) (terms : list (N * N)) (handles : list (nat * edge)) (cap : nat) : tst :=
   let own := lift_own handles in
